@@ -87,6 +87,8 @@ func runC13L2(r *core.Run) (*core.Violation, func() *core.Violation) {
 		}
 	})
 	loop.faults = x.cfg.faults
+	loop.idle = func(g *simrt.G) bool { return g.Name == "chain-events" && len(m.outbox) == 0 }
+	loop.idleSteps = r.Bool(40, "knob.l2-sparse-schedule")
 	loop.failable = func(c *Call) bool { return true }
 	loop.extra = func() []l2Stim {
 		var st []l2Stim
